@@ -106,6 +106,36 @@ class AbsBuf:
             return Native(rev, "bytearray.reverse")
         if attr == "translate":
             return Native(lambda ev, a, k, n: self.translate(a[0], node), "bytearray.translate")
+        if attr == "find":
+            def find(ev, a, k, n):
+                needle = _one_byte(a[0] if a else None)
+                if needle is None or len(a) > 2 or k:
+                    raise AnalysisError("engine B: bytearray.find(%r) on an abstract buffer" % (a,))
+                return FindResult(self, needle, Aff.of(a[1]) if len(a) > 1 else Aff(0))
+            return Native(find, "bytearray.find")
+        if attr == "replace":
+            def replace(ev, a, k, n):
+                old, new = _one_byte(a[0] if a else None), _one_byte(a[1] if len(a) > 1 else None)
+                if old is None or new is None or len(a) > 2 or k:
+                    # anything but byte-for-byte replacement may change the length
+                    self.events.append(("resize", "replace", getattr(node, "lineno", 0)))
+                    return DerivedBuf(self, B.fresh("replaced", 0, 255))
+                if B.decide_eq0(Aff.of(self.val) - old, "replace: element is the old byte"):
+                    return DerivedBuf(self, Aff(new))
+                return DerivedBuf(self, self.val)
+            return Native(replace, "bytearray.replace")
+        if attr in ("ljust", "rjust"):
+            def just(ev, a, k, n):
+                from .segbuf import SegBuf
+                width = Aff.of(a[0])
+                fill = _one_byte(a[1]) if len(a) > 1 else 0x20
+                if fill is None:
+                    raise AnalysisError("engine B: bytearray.%s with fill %r" % (attr, a[1:]))
+                if not B.decide_ge0(width - self.L - 1, "%s: width > len" % attr):
+                    return SegBuf([("abs", self)], attr)
+                pad = ("const", fill, width - self.L)
+                return SegBuf([("abs", self), pad] if attr == "ljust" else [pad, ("abs", self)], attr)
+            return Native(just, "bytearray." + attr)
         if attr in ("append", "extend", "insert", "pop", "clear", "remove"):
             def resize(ev, a, k, n):
                 self.events.append(("resize", attr, getattr(node, "lineno", 0)))
@@ -117,6 +147,84 @@ class AbsBuf:
 
     def abstract_iter(self, fr, st):
         BufIter(self, False).abstract_iter(fr, st)
+
+
+def _one_byte(x):
+    """0xFF / b"\xff" / [255] -> 255; anything else -> None."""
+    if isinstance(x, bool):
+        return None
+    if isinstance(x, int) and 0 <= x <= 255:
+        return x
+    if isinstance(x, Aff):
+        c = B.const_of(x)
+        return int(c) if c is not None and 0 <= c <= 255 else None
+    if isinstance(x, (list, tuple)) and len(x) == 1:
+        return _one_byte(x[0])
+    return None
+
+
+class FindResult:
+    """What buf.find(needle, start) returned: an index holding the needle, or -1.  Only the find-driven loop
+    `i = buf.find(x); while TEST(i): ...buf[i]...; i = buf.find(x, i + 1)` gives it a meaning."""
+
+    def __init__(self, buf, needle, start):
+        self.buf, self.needle, self.start = buf, needle, start
+
+    def __repr__(self):
+        return "<%s.find(%#x, %r)>" % (self.buf.name, self.needle, B.norm(self.start))
+
+
+def find_loop(fr, st, ivar):
+    """The loop visits the occurrences of the needle in ascending order for as long as its test holds.  For the generic
+    element: not an occurrence (or before the search start) -> never visited; an occurrence -> either some occurrence
+    at or before it fails the test (the loop has stopped: not visited) or it is visited and the body runs with the
+    loop variable = its position."""
+    fres = fr.env[ivar]
+    buf, needle = fres.buf, fres.needle
+    if st.orelse or not st.body:
+        raise AnalysisError("engine B: find-driven loop with else at line %d" % st.lineno)
+    last = st.body[-1]
+    assigned = set(_assigned_names(st.body))
+    if assigned != {ivar}:
+        raise AnalysisError("engine B: find-driven loop at line %d assigns %s" % (st.lineno, sorted(assigned)))
+    if not (isinstance(last, ast.Assign) and len(last.targets) == 1 and isinstance(last.targets[0], ast.Name) and last.targets[0].id == ivar):
+        raise AnalysisError("engine B: find-driven loop at line %d does not end with the next find" % st.lineno)
+    # the loop must stop when nothing is found
+    fr.env[ivar] = -1
+    if fr.truth(fr.expr(st.test), st.test):
+        raise AnalysisError("engine B: find-driven loop at line %d keeps running after find() returned -1" % st.lineno)
+    after = B.fresh("%s after loop@%d" % (ivar, st.lineno), -1, None)
+
+    def check_refind(at):
+        fr.env[ivar] = at
+        nxt = fr.expr(last.value)
+        if not (isinstance(nxt, FindResult) and nxt.buf is buf and nxt.needle == needle and B.is_zero(nxt.start - at - 1)):
+            raise AnalysisError("engine B: find-driven loop at line %d: the next search is not find(same byte, %s + 1)" % (st.lineno, ivar))
+
+    visited = B.decide_eq0(Aff.of(buf.val) - needle, "generic element holds the searched byte") \
+        and B.decide_ge0(Aff.of(buf.idx) - fres.start, "generic element at or after the search start")
+    if visited:
+        j = B.fresh("occurrence<=p@%d" % st.lineno, 0, None)
+        B.assume_ge0(j - fres.start)
+        B.assume_ge0(Aff.of(buf.idx) - j)
+        fr.env[ivar] = j
+        if not fr.truth(fr.expr(st.test), st.test):
+            visited = False  # an occurrence at or before the generic element fails the test: the loop has stopped
+        else:
+            fr.env[ivar] = buf.idx
+            if not fr.truth(fr.expr(st.test), st.test):
+                raise B.DeadPath()  # the generic element itself fails the test: the case above with j = p
+    if visited:
+        fr.env[ivar] = buf.idx
+        try:
+            fr.block(st.body[:-1])
+        except (_Break, _Continue):
+            raise AnalysisError("engine B: break/continue in a find-driven loop at line %d" % st.lineno)
+        check_refind(Aff.of(buf.idx))
+    else:
+        k = B.fresh("k@%d" % st.lineno, 0, None)
+        check_refind(k)
+    fr.env[ivar] = after
 
 
 class SymRange:
